@@ -20,6 +20,8 @@ import shutil
 import vlib
 from checks import gen as genfam
 from checks import genprogs
+from checks import cantool_cli
+from checks import translate_tie
 from checks.genprogs import hs, hx, fbits, repr_float
 
 PROPERTIES = {
@@ -491,8 +493,14 @@ def _fix_compile_culprit(res, scratch, progs):
         res.violations[idx[0]:idx[0] + 1] = found
 
 
+translate_tie.describe(PROPERTIES, "C11", "(here: hasPhysicalRepresentation, hasCustomType, signalPrimitiveType, signalPrimitiveSuperType "
+                       "and signalSuperType of internal/generate/file.go, = the decision functions of Gen/Api.v and Gen/Message.v)",
+                       translate_tie.TIE_NOTE_INT, translate_tie.TIE_NOTE_FLOAT)
+
+
 def run(res, replay=None):
     vlib.proof_stage(res)
+    translate_tie.run_tie(res, ["apidecide"])
     count = 10 if res.tier == "quick" else 120
     scratch = vlib.scratch_dir()
     res.corr_obligations = [
@@ -516,6 +524,8 @@ def run(res, replay=None):
         finally:
             genfam.genprogs = saved
         _fix_compile_culprit(res, scratch, progs)
+        # the path users take: the real `cantool generate` binary must be exactly the glue around the library calls
+        cantool_cli.generate_stage(res, scratch, progs)
         if exe is None:
             if not res.violations:
                 res.violation("batch could not be prepared", {"status": status}, no_input=True)
